@@ -234,7 +234,7 @@ def build_subject(case, env, tmpdir, state):
     state["n"] += 1
     if case["frames"] > 1:
         path = os.path.join(tmpdir, "c07-%d.gif" % state["n"])
-        make_anim_file(rnd, path, 6, 6, case["frames"], "GIF")
+        make_anim_file(rnd, path, *case.get("src", (6, 6)), case["frames"], "GIF")
         image = cls.from_file(path, **case["size_kw"])
         image.seek(case["frame0"])
     else:
@@ -518,6 +518,11 @@ def gen(rnd, persona):
         case["frames"] = 1
         case["style_kw"] = dict(compress=0, method=rnd.choice(["whole", "lines", "whole"]))
         case["size_enum"] = None
+        if pers in ("kitty", "konsole") and rnd.random() < 0.6:
+            # an animation whose frames need chunked transmissions, shown twice so that the
+            # second pass is served from the frame cache
+            case.update(frames=2, frame0=0, repeat=2, cached=True, animate=True, src=[48, 40], size_kw=dict(width=10, height=4))
+            case["style_kw"]["method"] = "whole"
     elif style != "block":
         kw = {}
         if rnd.random() < 0.5:
